@@ -11,7 +11,7 @@ SHARDS = {"quick": 8, "thorough": 16}
 RULE = (
     "cases: convex faces with 3..8 corners (inscribed in small circles of radius 0.5..60 deg with jittered corners; Voronoi / "
     "merged-Delaunay / cubed-sphere / lat-lon-patch cells) placed generically, with a pole strictly inside (off-centre), with "
-    "a corner exactly at a pole, across lon=180, across lon=0, containing (lon 0, lat 0), just beside a pole, on the equator; "
+    "a corner exactly at a pole (stored with any longitude), a pole inside and a corner exactly on lon=0 / lon=180, across lon=180, across lon=0, containing (lon 0, lat 0), just beside a pole, on the equator; "
     "every start corner, both traversal orientations; as single-face grids and as whole meshes. Oracle: analytic great-circle "
     "apex per edge (inside-arc decided by sign tests) cross-checked against 64 slerp samples per edge; shortest circular cover of "
     "the boundary longitudes; pole enclosure by edge-plane signs with a 1e-6 rad margin (cases inside the margin are dropped). "
@@ -143,6 +143,12 @@ def _angdiff(a, b):
 
 def judge(ctx, got, want, sig, detail):
     (glat0, glat1), (glon0, glon1) = got
+    # a bound reported as 2*pi is the meridian 0 (np.mod of a tiny negative longitude); only [0, 2*pi] means the full circle
+    if not (glon0 <= 1e-12 and glon1 >= 2 * math.pi - 1e-12):
+        if glon0 >= 2 * math.pi - 1e-12:
+            glon0 = 0.0
+        if glon1 >= 2 * math.pi - 1e-12 and glon0 > 1e-12:
+            glon1 = 0.0
     finite = all(math.isfinite(v) for v in (glat0, glat1, glon0, glon1)) and glat0 > -10 and glon0 > -10
     ctx.check("well_formed", finite and -math.pi / 2 - 1e-12 <= glat0 <= glat1 <= math.pi / 2 + 1e-12 and -1e-12 <= glon0 <= 2 * math.pi + 1e-12 and -1e-12 <= glon1 <= 2 * math.pi + 1e-12,
               sig, detail)
@@ -168,8 +174,9 @@ def face_sig(want, k, placement):
             "contains_origin": want["contains_origin"], "bulge": want["bulge"], "orientation": want["orientation"], "placement": placement}
 
 
-def grid_of(rings_xyz):
-    """rings: list of (k,3) arrays with their own nodes -> Grid via explicit topology (lon/lat input)."""
+def grid_of(rings_xyz, pole_lon=None):
+    """rings: list of (k,3) arrays with their own nodes -> Grid via explicit topology (lon/lat input).
+    pole_lon: longitude (deg) to store for corners exactly at a pole (a pole has no longitude: any value is legal input)."""
     U = ux.ux()
     pts, faces = [], []
     for R in rings_xyz:
@@ -178,6 +185,8 @@ def grid_of(rings_xyz):
         faces.append(list(range(base, base + len(R))))
     pts = np.array(pts)
     lon, lat = ref.xyz_to_lonlat(pts)
+    if pole_lon is not None:
+        lon = np.where(np.abs(pts[:, 2]) == 1.0, pole_lon, lon)
     w = max(len(f) for f in faces)
     conn = np.full((len(faces), w), ux.INT_FILL, dtype=np.intp)
     for i, f in enumerate(faces):
@@ -221,13 +230,14 @@ def run_case(ctx, case):
             return
         detail0 = {"case": {k_: case[k_] for k_ in ("k", "radius", "fseed", "placement", "pseed")}}
         # one grid per variant (single-face grids) - and all variants together as one multi-face grid
-        gall = grid_of(rings)
+        pole_lon = [None, -94.57186012, 137.5, 359.0 - 360.0][case["pseed"] % 4] if case["placement"].startswith("corner_") else None
+        gall = grid_of(rings, pole_lon)
         ball = get_bounds(ctx, gall, {"placement": case["placement"], "stage": "multi"}, detail0)
         for i, (R, w, tag) in enumerate(zip(rings, wants, tags)):
             sig = face_sig(w, k, case["placement"])
             det = dict(detail0, start=tag[1], want={k_: w[k_] for k_ in ("lat_min", "lat_max", "lon_lo", "lon_hi", "lon_width", "pole")}, ring_lonlat=np.array(ref.xyz_to_lonlat(R)).T.tolist())
             if i < 2:
-                g1 = grid_of([R])
+                g1 = grid_of([R], pole_lon)
                 b1 = get_bounds(ctx, g1, dict(sig, stage="single"), det)
                 if b1 is not None:
                     judge(ctx, b1[0], w, dict(sig, grid="single"), dict(det, got=b1[0].tolist()))
